@@ -291,6 +291,20 @@ def percent_rule(rep, rule, mod, D):
              % (len(h), h[0]['arg'] if h else None))
 
 
+def next_rule(rep, rule, mod, D):
+    """after a conversion the scan resumes at the character that follows the conversion character"""
+    f = mod.fn('__printf')
+    for conv in 'diuoxXcsp%':
+        e = D['table'].get(conv)
+        if e is None:
+            continue
+        ok = e.get('next_ok') is True
+        rep.inst(rule, '__printf', '%%%s: the scan resumes right after the conversion character' % conv, ok,
+                 D['loop']['header'].term.where(),
+                 None if ok else 'the cursor handed to the next pass of the directive loop is not (position of the conversion '
+                 'character) + 1 on the paths of this conversion')
+
+
 def wide_rule(rep, rule, mod, T, D):
     """%ls: ISO C converts a wchar_t string; an implementation that never looks at the l bit on the %s path cannot"""
     f = mod.fn('__printf')
@@ -951,6 +965,7 @@ def run(rep, repo, tier):
     vaarg_rule(rep, 'R-VAARG', mod, T, D, vaarg_sites(mod, T))
     percent_rule(rep, 'R-PERCENT', mod, D)
     wide_rule(rep, 'R-WIDE', mod, T, D)
+    next_rule(rep, 'R-NEXT', mod, D)
     facts, pr = parser_rules(rep, mod, T, D)
     literal_rule(rep, 'R-LITERAL', mod, D, pr)
     flags_rule(rep, 'R-FLAGS', mod, T, pr)
@@ -977,7 +992,7 @@ def run(rep, repo, tier):
             raise AnalysisBroken('%r: %s' % (t, payload))
         for it in payload:
             rep.inst(*it[:6], nontrivial=it[6], fact=it[7])
-    for rule, n in (('R-LOOPVAR', 12), ('R-CURSOR', 15), ('R-OPSBITS', 18), ('R-VAARG', 25), ('R-PERCENT', 1), ('R-WIDE', 1),
+    for rule, n in (('R-LOOPVAR', 12), ('R-CURSOR', 15), ('R-OPSBITS', 18), ('R-VAARG', 25), ('R-PERCENT', 1), ('R-WIDE', 1), ('R-NEXT', 10),
                     ('R-STAR', 4), ('R-FIELD', 3), ('R-SYNTAX', 12), ('R-FLAGS', 5), ('R-LITERAL', 1), ('R-ILAYOUT', 100), ('R-IMAG', 15), ('R-DIGITCHR', 9),
                     ('R-SLAYOUT', 6), ('R-SBOUND', 1), ('R-PCACC', 5), ('R-EMITCOUNT', 8), ('R-IBUF', 3), ('R-WRAP', 10)):
         rep.floor(rule, n)
